@@ -179,6 +179,18 @@ fn plan(p: &mut Plan<'_>) {
             p.part(wakesim::WakeSim, 200_000, 50_000_000, "one real waiter/notifier protocol per case, each op one lock-protected call into the real type (poll, re-poll with another waker, drop the future; set condition, notify, close); all interleavings of small scenarios enumerated, larger ones sampled; composite send-loop waits scripted as check-then-register; oracle = audit poll at quiescence; non-trivial = a notifier or closer ran while a waiter was registered or about to register; distinct = hash of protocol + op/result history");
             p.assumptions = vec!["interleavings at the granularity of whole lock-protected calls (sub-call interleavings would need the shuttle tier, not built)", "single-consumer types are driven with one consumer and a stable waker; what happens otherwise is a probe, not a verdict"];
         }
+        "C01" => {
+            p.part(streamsim::StreamSim { mode: streamsim::Mode::C01 }, 20_000, 2_000_000, "two real DataStreams + FlowController endpoints; 1..6 concurrent uni/bidi streams from both roles, writes in drawn chunks with/without shutdown, resets and stop-sending; packets of drawn capacities (25..1452 bytes) so STREAM frames split at every boundary; per-packet and per-ack fates from the tape (drop, duplicate, delay/reorder), spurious loss reports, late acks after loss; scheduler picks the interleaving of application polls, send opportunities, acks and loss detection; bounded liveness after the tape's last fault with an audit poll; non-trivial = a fault fired and data moved; distinct = hash of packet/ack/accept history");
+            p.assumptions = vec!["glue mirrors qconnection (packages order, FlowControlledDataStreams, AckDataSpace, DataTracker::may_loss); the real glue is exercised by the netsim checks", "duplicates at packet level are absorbed by the packet-number check (as the journals do)"];
+        }
+        "C11" => {
+            p.part(streamsim::StreamSim { mode: streamsim::Mode::C11 }, 20_000, 2_000_000, "as C01 with all six flow parameters of each side drawn independently from {0,1,100,1200,4096,65536,2^20}; every emitted STREAM frame is checked against the stream and connection limits delivered so far; advertised limits must not decrease; two real endpoints must never raise an error against each other; 70% of the runs end with a forged STREAM one byte beyond the advertised stream or connection window (must be FLOW_CONTROL_ERROR)");
+            p.assumptions = vec!["limits 'delivered so far' = initial transport parameter for the stream's kind and initiator raised by MAX_* frames already processed by the sender", "forged frames use a fresh peer stream index the peer application never opens"];
+        }
+        "C12" => {
+            p.part(streamsim::StreamSim { mode: streamsim::Mode::C12 }, 20_000, 2_000_000, "as C01 with initial stream counts from {0,1,2,3,10,100} and both concurrency strategies; local opens never exceed the delivered limit; accept yields every peer stream once, in order; 70% of the runs end with a forged frame: stream index at/over the advertised count, STREAM or RESET_STREAM on a send-only stream, STOP_SENDING / MAX_STREAM_DATA on a receive-only stream, frames for a local stream never opened, four final-size contradictions; expected error kinds from RFC 9000");
+            p.assumptions = vec!["legality of a forged frame is judged against what the target endpoint has emitted (advertised), not what was delivered"];
+        }
         other => die(&format!("no check for property {other}")),
     }
 }
